@@ -146,9 +146,39 @@ func (t *sysT) Do(i int) string {
 		dump := make([]byte, 0x40)
 		n := t.s.Bus.EaDump(start-3, start+0x30, dump)
 		w24 := t.s.Bus.EaRead24_wrap(0x7E, uint16(start)+uint16(i))
-		return digest(ok, t.log.String(), t.s.GetPC(), n, dump, w24)
+		// the I/O register area, a ROM-typed memory and the RAM helpers
+		t.s.Bus.EaWrite(uint32(0x002100+t.v), byte(0x80+i))
+		io1 := t.s.Bus.EaRead(uint32(0x002100 + t.v))
+		hw := &memory.FakeHW{}
+		hw.Write(uint32(0x4200+t.v), 7)
+		mr := memory.NewROM([]byte{1, 2, 3, byte(t.v)}, 0x100)
+		mr.Write(0x101, 9)
+		ram := memory.NewRAM(make([]byte, 8), 0x200)
+		ram.Write(0x203, byte(t.v))
+		sz := ram.Size() + mr.Size() + hw.Size()
+		r3, h3 := mr.Read(0x103), hw.Read(uint32(0x4200+t.v))
+		ram.Clear()
+		mr.Clear()
+		hw.Clear()
+		// a logger that also implements Reserve/Commit
+		rl := &reserveLog{}
+		old := t.s.Logger
+		t.s.Logger = rl
+		ok2 := t.s.RunUntil(0x123456, uint64(3+t.v))
+		t.s.Logger = old
+		return digest(ok, t.log.String(), t.s.GetPC(), n, dump, w24, io1, sz, r3, h3, hw.Dump(0), ok2, rl.buf.String(), rl.reserved, rl.commits)
 	})
 }
+type reserveLog struct {
+	buf      bytes.Buffer
+	reserved int
+	commits  int
+}
+
+func (l *reserveLog) Write(p []byte) (int, error) { return l.buf.Write(p) }
+func (l *reserveLog) Reserve(n int)               { l.reserved += n }
+func (l *reserveLog) Commit()                     { l.commits++ }
+
 func (t *sysT) State() string {
 	c := &t.s.CPU
 	return digest(c.PC, c.RK, c.SP, c.RA, c.RX, c.RY, c.RAl, c.RAh, c.Flags(), c.AllCycles, c.Stopped, sha1.Sum(t.s.WRAM[:0x3000]))
@@ -193,19 +223,38 @@ func (t *cpuT) Do(i int) string {
 		if i == 1 {
 			t.c.TriggerIRQ()
 		}
-		// every opcode once, disassembled and stepped, in a width/decimal mode that depends on op and variant
+		// every opcode, disassembled and stepped, under every width mode x {native, emulation} x
+		// {flags clear, flags set} x {no interrupt, NMI, IRQ pending on a few}: all branches of the
+		// instruction functions, both stack disciplines, decimal arithmetic in both widths
 		saved := *t.c
 		h := sha1.New()
-		for op := 0; op < 256; op++ {
-			base := 0x9000 + 8*op
-			t.ram[base], t.ram[base+1], t.ram[base+2], t.ram[base+3] = byte(op), byte(0x10+t.v), 0x20, 0x00
-			t.c.PC, t.c.RK, t.c.RDBR, t.c.SP, t.c.RD = uint16(base), 0, 0, 0x01F0, 0
-			t.c.SetFlags(byte((i+t.v)&3)<<4 | byte(op&1)<<3)
-			line := t.c.DisassembleCurrentPC(nil)
-			n, st := safeStep(t.c.Step)
-			fmt.Fprintf(h, "%s%d%v%04x%04x;", line, n, st, t.c.PC, t.c.RA)
-			t.c.Stopped = false
+		for mode := 0; mode < 16; mode++ {
+			for op := 0; op < 256; op++ {
+				base := 0x9000 + 8*op
+				t.ram[base], t.ram[base+1], t.ram[base+2], t.ram[base+3] = byte(op), byte(0x10+t.v), 0x20, 0x00
+				t.c.PC, t.c.RK, t.c.RDBR, t.c.SP, t.c.RD = uint16(base), 0, 0, 0x01F0, uint16(mode&1)
+				t.c.E = 0
+				fl := byte(mode&3) << 4
+				if mode&4 != 0 {
+					fl |= 0xCF
+				}
+				t.c.SetFlags(fl)
+				if mode&8 != 0 {
+					t.c.E = 1
+					t.c.SetFlags(fl)
+				}
+				t.c.Interrupt = 0
+				if op%64 == 1+t.v {
+					t.c.Interrupt = byte(2 + mode&1)
+				}
+				line := t.c.DisassembleCurrentPC(nil)
+				n, st := safeStep(t.c.Step)
+				fmt.Fprintf(h, "%s%d%v%04x%04x;", line, n, st, t.c.PC, t.c.RA)
+				t.c.Stopped = false
+			}
 		}
+		t.c.Reset()
+		fmt.Fprintf(h, "%04x", t.c.PC)
 		*t.c = saved
 		tr = append(tr, h.Sum(nil)...)
 		dump := make([]byte, 0x20)
@@ -250,20 +299,53 @@ func (t *altT) Do(i int) string {
 			n, _ := t.c.Step()
 			cy += n
 		}
-		for op := 0; op < 256; op++ {
-			base := 0x9000 + 8*op
-			t.ram[base], t.ram[base+1], t.ram[base+2], t.ram[base+3] = byte(op), byte(0x10+t.v), 0x20, 0x00
-			pc, k, dbr, sp, d, fl, ra, rx, ry, ral, rah, rxl, ryl, e := t.c.PC, t.c.RK, t.c.RDBR, t.c.SP, t.c.RD, t.c.Flags(), t.c.RA, t.c.RX, t.c.RY, t.c.RAl, t.c.RAh, t.c.RXl, t.c.RYl, t.c.E
-			t.c.PC, t.c.RK, t.c.RDBR, t.c.SP, t.c.RD = uint16(base), 0, 0, 0x01F0, 0
-			t.c.SetFlags(byte((i+t.v)&3)<<4 | byte(op&1)<<3)
-			t.c.DisassembleCurrentPC(&tr)
-			n, st := safeStep(t.c.Step)
-			fmt.Fprintf(&tr, "%d%v%04x%04x;", n, st, t.c.PC, t.c.RA)
-			t.c.Stopped = false
-			t.c.E = e
-			t.c.SetFlags(fl)
-			t.c.PC, t.c.RK, t.c.RDBR, t.c.SP, t.c.RD, t.c.RA, t.c.RX, t.c.RY, t.c.RAl, t.c.RAh, t.c.RXl, t.c.RYl = pc, k, dbr, sp, d, ra, rx, ry, ral, rah, rxl, ryl
+		pc, k, dbr, sp, d, fl0, ra, rx, ry, ral, rah, rxl, ryl, e0 := t.c.PC, t.c.RK, t.c.RDBR, t.c.SP, t.c.RD, t.c.Flags(), t.c.RA, t.c.RX, t.c.RY, t.c.RAl, t.c.RAh, t.c.RXl, t.c.RYl, t.c.E
+		ac := t.c.AllCycles
+		for mode := 0; mode < 16; mode++ {
+			for op := 0; op < 256; op++ {
+				base := 0x9000 + 8*op
+				t.ram[base], t.ram[base+1], t.ram[base+2], t.ram[base+3] = byte(op), byte(0x10+t.v), 0x20, 0x00
+				t.c.PC, t.c.RK, t.c.RDBR, t.c.SP, t.c.RD = uint16(base), 0, 0, 0x01F0, uint16(mode&1)
+				t.c.E = 0
+				fl := byte(mode&3) << 4
+				if mode&4 != 0 {
+					fl |= 0xCF
+				}
+				t.c.SetFlags(fl)
+				if mode&8 != 0 {
+					t.c.E = 1
+					t.c.SetFlags(fl)
+				}
+				t.c.Interrupt = 0
+				if op%64 == 1+t.v {
+					t.c.Interrupt = byte(2 + mode&1)
+				}
+				if op%97 == 0 {
+					t.c.DisassemblePreviousPC(&tr)
+					tr.WriteString(t.c.Disassemble(t.c.PC))
+				}
+				t.c.DisassembleCurrentPC(&tr)
+				n, st := safeStep(t.c.Step)
+				fmt.Fprintf(&tr, "%d%v%04x%04x;", n, st, t.c.PC, t.c.RA)
+				t.c.Stopped = false
+			}
 		}
+		t.c.I = 0
+		t.c.TriggerIRQ()
+		t.c.Reset()
+		b := &t.c.Bus
+		b.Write8(0x40, byte(t.v))
+		b.Write16(0x41, uint16(0x1234+t.v))
+		b.Write24(0x43, uint32(0x563412+t.v))
+		fmt.Fprintf(&tr, "%x %x %x %x %x;", b.Read8(0x40), b.Read16(0x41), b.Read24(0x43), b.EaRead(0x40), t.c.PC)
+		b.EaWrite(0x46, 9)
+		var other cpualt.CPU
+		other.InitFrom(t.c)
+		fmt.Fprintf(&tr, "%x;", other.PC)
+		t.c.E = e0
+		t.c.SetFlags(fl0)
+		t.c.Interrupt, t.c.Stopped, t.c.AllCycles = 0, false, ac
+		t.c.PC, t.c.RK, t.c.RDBR, t.c.SP, t.c.RD, t.c.RA, t.c.RX, t.c.RY, t.c.RAl, t.c.RAh, t.c.RXl, t.c.RYl = pc, k, dbr, sp, d, ra, rx, ry, ral, rah, rxl, ryl
 		return digest(tr.String(), cy)
 	})
 }
@@ -384,7 +466,19 @@ func newROM(v, n int) *romT {
 	for i := range img {
 		img[i] = byte(i*(3+2*v) + v)
 	}
-	img[0x7FB0+0x2A] = 0x33 // v3 header
+	switch v % 3 { // header version 3, 2 and 1
+	case 0:
+		img[0x7FB0+0x2A] = 0x33
+	case 1:
+		img[0x7FB0+0x2A], img[0x7FB0+0x24] = 0x01, 0x00
+	default:
+		img[0x7FB0+0x2A], img[0x7FB0+0x24] = 0x01, 0x20
+	}
+	// plausible vectors, checksum pair and map mode so that Score takes its branches
+	copy(img[0x7FB0+0x34:], []byte{0x00, 0x90, 0x10, 0x90, 0x20, 0x90, 0x30, 0x90})
+	copy(img[0x7FB0+0x44:], []byte{0x00, 0x90, 0x00, 0x00, 0x10, 0x90, 0x20, 0x90, 0x00, 0x80, 0x30, 0x90})
+	img[0x7FB0+0x2C], img[0x7FB0+0x2D], img[0x7FB0+0x2E], img[0x7FB0+0x2F] = 0x34, 0x12, 0xCB, 0xED
+	img[0x7FB0+0x25] = byte(0x20 + v)
 	r, err := snes.NewROM(fmt.Sprintf("rom%d", v), img)
 	if err != nil {
 		panic(err)
@@ -412,7 +506,7 @@ func (t *romT) Do(i int) string {
 			e2 := r.WriteHeader()
 			var b bytes.Buffer
 			e3 := r.Header.WriteHeader(&b)
-			return digest(e1, e2, e3, b.Bytes(), r.Header.HeaderVersion(), r.Header.Score(0x7FB0), r.Header.Score(0xFFB0), r.Header.ROMSizeBytes()&0xFFFF, r.Header.RAMSizeBytes()&0xFFFF, snes.RegionNames[r.Header.DestinationCode], snes.RegionNames[snes.Region(t.v)])
+			return digest(e1, e2, e3, b.Bytes(), r.Header.HeaderVersion(), r.Header.Score(0x7FB0), r.Header.Score(0xFFB0), r.Header.Score(0x40FFB0), r.Header.ROMSizeBytes()&0xFFFF, r.Header.RAMSizeBytes()&0xFFFF, snes.RegionNames[r.Header.DestinationCode], snes.RegionNames[snes.Region(t.v)])
 		}
 	})
 }
@@ -434,7 +528,7 @@ func (t *fnT) Do(i int) string {
 		base := uint32(0x2000*i + 0x111*t.v)
 		for _, f := range []func(uint32) (uint32, error){lorom.BusAddressToPak, lorom.PakAddressToBus, hirom.BusAddressToPak, hirom.PakAddressToBus,
 			exhirom.BusAddressToPak, exhirom.PakAddressToBus, sa1rom.BusAddressToPak, sa1rom.PakAddressToBus} {
-			for a := base; a < 1<<24; a += 0x3F3F1 {
+			for a := base; a < 1<<24; a += 0x0F3F1 {
 				p, err := f(a)
 				fmt.Fprintf(h, "%x %v;", p, err)
 			}
